@@ -11,6 +11,8 @@ The harness's commands are written in a tiny language the executor understands:
   W  <path> <token>            write a file                R  <path> <token>            read a file, expect token
   WG <root> n=<token> ...      write <root>.n files        RG <root> n=<token> ...      read  <root>.n files
   :  <anything>                no-op (literal noise)       a path word may carry a `--opt=` prefix
+  R2/W2 <k> <token> <word>,  RG2/WG2 <k> n=<token> ... <word>    the same with the path LAST; the word carries k extra
+                                                                 characters typed directly after the reference
 plus what the backend wraps around them: `set -e`, `mkdir -p`, `ln -sf src dest`, `{`, `}`.
 Words are parsed with shell quoting rules (single quotes, double quotes, backslash, ${VAR} expansion outside single
 quotes), i.e. a path that was not quoted correctly reaches the executor as a different path, like in bash.
@@ -205,6 +207,29 @@ class World:
                     name, tok = a.split('=', 1)
                     p = f'{args[0]}.{name}'
                     if op == 'WG':
+                        self._put_local(local, p, tok, who)
+                        self.events.append((spec['job_id'], 'W', p, tok))
+                    else:
+                        got = self._resolve(local, links, p)
+                        self.events.append((spec['job_id'], 'R', p, tok))
+                        if got != tok:
+                            self.err('reference-does-not-resolve-to-resource',
+                                     f'{who} reads {p} expecting {tok} but finds {got}')
+            elif op in ('R2', 'W2', 'RG2', 'WG2') and len(args) >= 3 and args[0].isdigit():
+                # mention-last forms: <op> <suffix length> <token | n=token ...> <path word>; the path word may carry a
+                # suffix typed directly after the reference (sibling name): the resource is the word minus the suffix
+                sl = int(args[0])
+                word = args[-1]
+                base = word[:len(word) - sl] if sl else word
+                if op in ('R2', 'W2') and len(args) == 3:
+                    todo = [(base, args[1])]
+                elif op in ('RG2', 'WG2') and all('=' in a for a in args[1:-1]):
+                    todo = [(f'{base}.{a.split("=", 1)[0]}', a.split('=', 1)[1]) for a in args[1:-1]]
+                else:
+                    self.err('command-text-altered', f'{who}: unknown command {w!r}')
+                    todo = []
+                for p, tok in todo:
+                    if op in ('W2', 'WG2'):
                         self._put_local(local, p, tok, who)
                         self.events.append((spec['job_id'], 'W', p, tok))
                     else:
